@@ -890,7 +890,11 @@ class UsersDictionary(utils.IterableMap):
                     # back at the same time.
                     raise DuplicateHostmask(u.name, hostmask)
                 for otherHostmask in u.hostmasks:
-                    if ircutils.hostmaskPatternEqual(hostmask, otherHostmask):
+                    # Two users' hostmasks must not have a hostmask in common
+                    # (the sender would match both users, be refused, and cost
+                    # both of them the hostmask).
+                    if ircutils.hostmaskPatternEqual(hostmask, otherHostmask) or \
+                       ircutils.hostmaskPatternsIntersect(hostmask, otherHostmask):
                         raise DuplicateHostmask(u.name, hostmask)
         # Changing one user can change who is the unique match of any cached
         # hostmask (this user may now match it as well).
